@@ -228,8 +228,12 @@ def io_case(ctx, i, focus):
     elif pathform == "glob":
         pargs, shown = ["sub/*.pas"], rel
     else:
-        with open(os.path.join(d, "list.txt"), "w", encoding="utf-8") as f:
-            f.write(rel + "\n")
+        # the list is newline separated; lists written on Windows end their lines with CRLF, the last line may lack
+        # its terminator
+        term = r.choice(["\n", "\n", "\r\n", "\r\n", ""])
+        with open(os.path.join(d, "list.txt"), "wb") as f:
+            f.write((rel + term).encode("utf-8"))
+        ctx.bump("list_term:" + {"\n": "lf", "\r\n": "crlf", "": "none"}[term])
         pargs, shown = ["--files-from", "list.txt"], rel
     base = ["-C", "line_ending=lf"] + enc_args(encname)
     rc, so, se = ctx.run(base + ["--mode", mode] + pargs, cwd=d)
